@@ -119,13 +119,13 @@ PROPS = {
         'assumptions': [],
     },
     'C07': {
-        'units': [static_list.jobs, hashing.jobs, vptrs.jobs, deferred.jobs, install.jobs, phases.jobs],
+        'units': [static_list.jobs, hashing.jobs, vptrs.jobs, deferred.jobs, install.jobs, phases.jobs, fragments.jobs],
         'level': 'proof',
         'technique': 'Skolem-heap contracts on the registration lists, hash / vptr obligations proved from arbitrary prior values of every surviving static, '
-                     'bounded CBMC on deferred-id resolution over repeated updates',
+                     'bounded CBMC on deferred-id resolution over repeated updates and on the next-selection fragment started from arbitrary stale next values',
         'level_text': 'What survives between updates is covered piece by piece: the catalogs hold exactly the live registrations after any push / remove (proved, any length); '
                       'hash parameters, control table, vptr vector / map are re-established from ARBITRARY prior contents (stale hash_max can only enlarge the table; stale map '
-                      'entries are overwritten); deferred ids are resolved exactly once over 1..3 consecutive updates (bounded layouts).',
+                      'entries are overwritten); deferred ids are resolved exactly once over 1..3 consecutive updates (bounded layouts); every definition\'s next variable is rewritten by each update whatever value an earlier update left in it (bounded: <= 3 definitions per method).',
         'level_note': 'that the compile phase is a function of the catalogs only is not under contract; real shared-library unloading not modelled',
         'design_ref': 'DESIGN.md section 6 C07',
         'unverified': [A_TABLES, A_AUGMENT, A_INSTALL],
